@@ -87,8 +87,11 @@ Init == /\ decl = C0
         /\ k = 0 /\ handed = <<>> /\ smemo = 0 /\ hist = <<>> /\ lastans = <<>> /\ nreads = 0
         /\ atab = [n \in 1..MaxSeg |-> [j \in DOMAIN SOps |-> View(SOps[j], ResN(n))]]
 
+\* has the MODEL been edited behind the simulator's back (events "editx" / "editp" / "readdp")?
+Edited == \E j \in DOMAIN hist : hist[j].e \in {"editx", "editp", "readdp"}
+
 Continue ==
-    /\ k < MaxSeg
+    /\ k < MaxSeg /\ ~Edited          \* (a segment simulated after an edit would depend on the edit)
     /\ k' = k + 1
     /\ decl' = ApplySet(decl, Scn.steps[k + 1].set)
     /\ hist' = Append(hist, [e |-> "continue", h |-> 0, op |-> 0])
@@ -96,10 +99,18 @@ Continue ==
 
 \* the model is edited after the simulation: the declared initial value of x changes (an assignment-defined
 \* parameter of the LIVE model now resolves differently; no result may notice)
+\* ... or the assignment-defined parameter ITSELF is replaced by a number on the model (update_parameter, or
+\* remove_parameter + add_parameter), not through the simulator, possibly before any view was read
+EditP == 50
 Edit ==
-    /\ Scenario = "linia" /\ k = MaxSeg /\ decl.init["x"].v # EditX0
-    /\ decl' = [decl EXCEPT !.init["x"] = M!Num(EditX0)]
-    /\ hist' = Append(hist, [e |-> "edit", h |-> 0, op |-> 0])
+    /\ Scenario = "linia" /\ k >= 1
+    /\ \/ /\ decl.init["x"].v # EditX0
+          /\ decl' = [decl EXCEPT !.init["x"] = M!Num(EditX0)]
+          /\ hist' = Append(hist, [e |-> "editx", h |-> 0, op |-> 0])
+       \/ \E kind \in {"editp", "readdp"} :
+             /\ ~\E j \in DOMAIN hist : hist[j].e \in {"editp", "readdp"}
+             /\ decl' = ApplySet(decl, ("p" :> EditP))
+             /\ hist' = Append(hist, [e |-> kind, h |-> 0, op |-> 0])
     /\ UNCHANGED <<k, handed, smemo, lastans, nreads, atab>>
 
 GetResult ==
@@ -156,7 +167,7 @@ PrefixTheorems ==
 Maximal == Len(hist) = MaxEvents \/ (nreads = MaxReads /\ k = MaxSeg /\ Len(handed) = 2)
 EmitTable ==
     (EmitOn /\ hist = <<>>) =>
-        PrintT("@J@" \o ToJson([kind |-> "table", content |-> C0, sim |-> Scn, editx0 |-> EditX0, ops |-> SOps,
+        PrintT("@J@" \o ToJson([kind |-> "table", content |-> C0, sim |-> Scn, editx0 |-> EditX0, editp |-> EditP, ops |-> SOps,
                                  res |-> [n \in 1..MaxSeg |-> ResN(n)],
                                  answers |-> atab]) \o "@E@")
 EmitSeq ==
